@@ -47,6 +47,17 @@ def cases_for(pid, tier, seed):
         cases.append({"tree": t, "share": share, "pts": pts})
 
     quick = tier == "quick"
+
+    def collide(t):
+        """the same object queried at points that differ only by -1 / -2 (equal hashes in CPython), in sequence"""
+        vs = sorted(J.variables(t))
+        if not vs:
+            return
+        pts = []
+        for k, v in enumerate(vs):
+            base = {nm: gen.q(2 + i) for i, nm in enumerate(vs)}
+            pts += [dict(base, **{v: gen.q(-1)}), dict(base, **{v: gen.q(-2)}), dict(base, **{v: {"k": "q", "n": -1, "d": 1, "py": "float"}})]
+        add(t, pts=pts)
     if pid == "C17":
         for t in gen.dedup(gen.d1q() + rnd.sample(gen.over(gen.d1q(), ks=(1, 2, 3, 4)), 500 if quick else 5000) + gen.boundary_universe()[::4]
                            + gen.random_trees(seed * 11 + 9, 200 if quick else 4000, depth=3)):
@@ -66,6 +77,12 @@ def cases_for(pid, tier, seed):
             add(t)
         for t in pools():
             add(t, share=True)
+        for t in rnd.sample(trees, 250 if quick else 2500) + [J.Add(J.Mul(J.KUn("NthPower", gen.X, 2), gen.Y), J.Mul(gen.C[3], gen.X)), J.Mul(gen.X, J.KUn("NthPower", gen.Y, 3)),
+                                                              J.BUn("Logarithm", J.Add(gen.X, gen.C[3]), gen.E_)]:
+            collide(t)
+        W = J.Var("whatever")
+        for t in (J.Add(J.KUn("NthPower", W, 2), J.Mul(gen.C[2], W)), J.Un("Sine", W), J.Mul(W, W, W), J.Bin("Divide", gen.C[1], W)):
+            add(t, pts=gen.grid(["whatever"], [gen.q(0), gen.q(3), gen.q(-1)]))
         for t in rnd.sample(trees, 400 if quick else 3000):
             if J.size(t) >= 4:
                 add(t, share=True)
@@ -98,6 +115,9 @@ def cases_for(pid, tier, seed):
             add(t, pts=gen.grid(J.variables(t), gpts))
             if J.size(t) <= 9:
                 cases[-1]["early"] = True
+        for t in rnd.sample(bu, 200 if quick else 1500) + [J.BUn("Logarithm", J.Add(gen.X, gen.C[2]), gen.E_), J.Un("Reciprocal", J.Add(gen.X, gen.C[2]))]:
+            collide(t)
+            cases[-1]["early"] = J.size(t) <= 9
         for t in rnd.sample(bu, 300 if quick else len(bu)):
             if J.size(t) >= 4:
                 add(t, share=True, pts=gen.grid(J.variables(t), gpts))
@@ -133,6 +153,8 @@ def run_impl(cases):
         lived_d = J.outcome_of(lambda: S.Derivative(root), conv=lambda o: o) if len(vs) <= 1 else None
         # EARLY long-lived Partials (symbolic path) - only where the check asks for them (C07: early or late)
         early = {v: J.outcome_of(lambda: S.Partial(root, v, compute_early=True), conv=lambda o: o, timeout=10) for v in qv} if c.get("early") else {}
+        early_diff = J.outcome_of(lambda: S.Differential(root, compute_early=True), conv=lambda o: o, timeout=10) if c.get("early") else None
+        lived_diff = S.Differential(root)          # ONE late Differential for all points of the case
         allpts = []
         for p in c["pts"]:
             try:
@@ -145,13 +167,17 @@ def run_impl(cases):
             except Exception as exc:       # a legal coordinate name the Point constructor cannot take: every route fails with it
                 bad = {"k": "PyError", "t": type(exc).__name__}
                 row["at"].append(bad)
-                row["outs"].append([{"pa": bad, "pa2": bad, "pe": {"k": "na"}, "ld": bad, "da": bad} for _ in qv])
+                row["outs"].append([{"pa": bad, "pa2": bad, "pe": {"k": "na"}, "ld": bad, "da": bad, "da2": bad, "dae": {"k": "na"}} for _ in qv])
                 row["svs"].append([{"k": "ill"} for _ in qv])
                 row["dv"].append(bad if len(vs) <= 1 else {"k": "na"})
                 continue
             # the EARLY long-lived objects are queried FIRST: whatever the previous point left in the caches is still there
             pe_now = {v: ({"k": "na"} if early.get(v) is None else (early[v] if isinstance(early[v], dict) else J.outcome_of(lambda: early[v].at(pt)))) for v in qv}
+            dae_obj = None if early_diff is None else (early_diff if isinstance(early_diff, dict) else J.outcome_of(lambda: early_diff.at(pt), conv=lambda o: o))
             row["at"].append(J.outcome_of(lambda: root.at(pt)))
+            # the long-lived late Differential: first ask ONE component through component_at, then at(p) for all of them
+            J.outcome_of(lambda: lived_diff.component_at(qv[j % len(qv)], pt))
+            da2_obj = J.outcome_of(lambda: lived_diff.at(pt), conv=lambda o: o)
             per_v, svs = [], []
             # reverse mode: ONE object answers for all variables
             ld_err = None
@@ -183,7 +209,9 @@ def run_impl(cases):
                         J.outcome_of(lambda: root.at(other))
                     pa2 = J.outcome_of(lambda: lp.at(pt))
                 pe = pe_now[v]
-                o = {"pa": J.outcome_of(lambda: S.Partial(root, varg).at(pt)), "pa2": pa2, "pe": pe,
+                da2 = da2_obj if isinstance(da2_obj, dict) else J.outcome_of(lambda: da2_obj.component(varg))
+                dae = {"k": "na"} if dae_obj is None else (dae_obj if isinstance(dae_obj, dict) else J.outcome_of(lambda: dae_obj.component(varg)))
+                o = {"pa": J.outcome_of(lambda: S.Partial(root, varg).at(pt)), "pa2": pa2, "pe": pe, "da2": da2, "dae": dae,
                      "ld": ld_err if ld_err else J.outcome_of(lambda: ld_obj.component(varg)),
                      "da": da_err if da_err else J.outcome_of(lambda: da_obj.component(varg))}
                 per_v.append(o)
@@ -260,7 +288,7 @@ def collect(rep, pid, tier, seed):
                         rt = tg[3:]
                         counts["fl"] += 1
                         o = row["dv"][j] if rt == "dv" else row["outs"][j][t][rt]
-                        ex = float_layer(case, p, v, o, "C03" if rt in ("pa", "pa2", "dv") else "C06" if rt == "pe" else "C04")
+                        ex = float_layer(case, p, v, o, "C03" if rt in ("pa", "pa2", "dv") else "C06" if rt in ("pe", "dae") else "C04")
                         if "skip_illcond" in ex:
                             counts["skip_illcond"] += 1
                         else:
@@ -281,8 +309,8 @@ def collect(rep, pid, tier, seed):
                     prop = clause[:3]
                     desc = {"expr": J.show(case["tree"]), "tree": case["tree"], "shared": case["share"], "point": p, "variable": v,
                             "route": rt, "outcome": row["dv"][j] if rt == "dv" else row["outs"][j][t][rt]}
-                    if rt == "pe":
-                        early_pending.append((clause, desc, case["tree"], v))
+                    if rt in ("pe", "dae"):
+                        early_pending.append((clause, desc, case["tree"], v, rt))
                     elif prop == pid:
                         rep.violation(clause + "@" + rt, desc)
                     else:
@@ -294,17 +322,22 @@ def collect(rep, pid, tier, seed):
         import eng_reduce
         S = J.sm()
         keys, trees_attr = {}, []
-        for clause, desc, tree, v in early_pending:
-            k = (J.key(tree), v)
+        for clause, desc, tree, v, rt in early_pending:
+            k = (J.key(tree), v, rt)
             if k not in keys:
                 keys[k] = len(trees_attr)
-                trees_attr.append(J.expr_to_E(J.build_tree(tree)._synthetic_partial(v)))
+                o_ = J.build_tree(tree)
+                if rt == "pe":
+                    trees_attr.append(J.expr_to_E(o_._synthetic_partial(v)))
+                else:      # early Differential.at evaluates EVERY stored partial: any of them may carry the finding
+                    sp = o_._synthetic_partials()
+                    trees_attr.append(J.expr_to_E(S.Add(*sp.values())) if sp else J.Const(0))
         attr = eng_reduce.kf1_attribution(trees_attr)
-        for clause, desc, tree, v in early_pending:
-            if attr[keys[(J.key(tree), v)]]:
+        for clause, desc, tree, v, rt in early_pending:
+            if attr[keys[(J.key(tree), v, rt)]]:
                 rep.known("KF-1", "early Partial.at of an expression whose symbolic partial is simplified with the rewrite NthRoot(NthPower(u,m),n) => NthPower(NthRoot(u,n),m), n and m even")
             elif clause[:3] == pid:
-                rep.violation(clause + "@pe", desc)
+                rep.violation(clause + "@" + rt, desc)
             else:
                 rep.other[clause] = rep.other.get(clause, 0) + 1
     smp = []
